@@ -471,7 +471,12 @@ def _run_in_env(case, faulted, sess, env, rng, exc, hits, boot, late, late_base,
                         _merge_into(env.cfg, late_base)  # the subsystem switched off from this turn on
                 if faulted and hasattr(env.state.get("store"), "_c20_reset"):
                     env.state["store"]._c20_reset()
-                r_ = env.run(t["agent"], t["text"], t["turn"], now_ms=t["now_ms"], plan=t.get("plan"), ctx_obj=ctxs.get(t["agent"]) if case.get("reuse_ctx") else None)
+                extra_ = None
+                if "quality-trace" in case["sites"] and case["seed"] % 2 == 0:
+                    # what the caller hands over as the trace reason is part of the trace layer's input: an object that cannot be
+                    # rendered (the baseline, with tracing idle, never looks at it)
+                    extra_ = {"trace_reason": _Unprintable()}
+                r_ = env.run(t["agent"], t["text"], t["turn"], now_ms=t["now_ms"], plan=t.get("plan"), ctx_obj=ctxs.get(t["agent"]) if case.get("reuse_ctx") else None, ctx_extra=extra_)
                 if case.get("reuse_ctx"):
                     ctxs[t["agent"]] = r_["ctx"]
         logs = env.logs()
@@ -482,6 +487,16 @@ def _run_in_env(case, faulted, sess, env, rng, exc, hits, boot, late, late_base,
             shutil.rmtree(fx_dir, ignore_errors=True)
         return {"canon": canon, "results": list(env.results), "hits": hits, "lines": [r_.get("line") for r_ in env.results],
                 "reflection_index_is_retrieval_index": wired}
+
+
+class _Unprintable:
+    def __str__(self):
+        raise RuntimeError("cannot render the trace reason")
+
+    __repr__ = __str__
+
+    def __bool__(self):
+        raise RuntimeError("cannot test the trace reason")
 
 
 def _merge_into(dst, over):
